@@ -17,11 +17,21 @@
    closed connection.  ForgetClientOnRemove says whether applying a Leave also drops
    the client (as shipped: FALSE - a node that leaves and joins again under the same id
    can never be sent a message by the members that knew it before).  A restart of m
-   empties dead[m] (new process, new clients). *)
+   empties dead[m] (new process, new clients).
+
+   (third session) A node that joins again announces a NEW address: addresses are pairs
+   <<node, generation>>.  A member that is behind a compacted prefix of another member's log
+   does not see the entries, it installs that member's snapshot (InstallSnapshot): the
+   address book of the snapshot replaces its own - ids that are not in it are removed
+   (Conn.RemoveNode, which does NOT go through the transport: its client for that peer is
+   dead unless clients are built per call), ids in it are added with AddNode.  AddOverwrites
+   says whether AddNode replaces a different non-empty address (as shipped: FALSE - the first
+   address wins, so a member that learns of a re-join from a snapshot keeps the old address);
+   ClientPerCall says whether the transport builds its client on the current connection for
+   every message (as shipped: FALSE - one cached client per peer id). *)
 EXTENDS Integers, Sequences, FiniteSets, TLC
-CONSTANTS Nodes, Boot, MaxLog, SnapshotHasBook, BootHasAddr, ForgetClientOnRemove
-NoAddr == 0
-Addr(n) == n     \* the address a node announces is identified with the node
+CONSTANTS Nodes, Boot, MaxLog, SnapshotHasBook, BootHasAddr, ForgetClientOnRemove, AddOverwrites, ClientPerCall
+NoAddr == <<0, 0>>
 
 VARIABLES log,      \* Seq([op, n, addr])
           snapIdx,  \* [Nodes -> Nat]: entries <= snapIdx[m] are compacted on member m
@@ -29,47 +39,72 @@ VARIABLES log,      \* Seq([op, n, addr])
           book,     \* [Nodes -> [SUBSET Nodes -> address]]
           applied,  \* [Nodes -> Nat]
           up, members,
-          dead      \* [Nodes -> SUBSET Nodes]: peers for which m's transport holds a client on a closed connection
-vars == <<log, snapIdx, snapBook, book, applied, up, members, dead>>
+          dead,     \* [Nodes -> SUBSET Nodes]: peers for which m's transport holds a client on a closed connection
+          gen       \* [Nodes -> Nat]: how often the node has joined; its current address is <<n, gen[n]>>
+vars == <<log, snapIdx, snapBook, book, applied, up, members, dead, gen>>
+Addr(n) == <<n, gen[n]>>
 Empty == [x \in {} |-> 0]
 Put(f, x, v) == [y \in DOMAIN f \cup {x} |-> IF y = x THEN v ELSE f[y]]
-AddNode(b, n, a) == IF n \in DOMAIN b /\ b[n] # NoAddr THEN b ELSE Put(b, n, a)   \* first non-empty address wins
+AddNode(b, n, a) == IF n \in DOMAIN b /\ b[n] # NoAddr /\ ~(AddOverwrites /\ a # NoAddr) THEN b ELSE Put(b, n, a)   \* as shipped: first non-empty address wins
 DropNode(b, n) == [y \in DOMAIN b \ {n} |-> b[y]]
 StepB(b, e) == IF e.op = "join" THEN AddNode(b, e.n, e.addr) ELSE DropNode(b, e.n)
 
-Init == /\ log = << [op |-> "join", n |-> Boot, addr |-> IF BootHasAddr THEN Addr(Boot) ELSE NoAddr] >>
+Init == /\ gen = [m \in Nodes |-> IF m = Boot THEN 1 ELSE 0]
+        /\ log = << [op |-> "join", n |-> Boot, addr |-> IF BootHasAddr THEN <<Boot, 1>> ELSE NoAddr] >>
         /\ snapIdx = [m \in Nodes |-> 0] /\ snapBook = [m \in Nodes |-> Empty]
-        /\ book = [m \in Nodes |-> IF m = Boot THEN (Boot :> Addr(Boot)) ELSE Empty]
+        /\ book = [m \in Nodes |-> IF m = Boot THEN (Boot :> <<Boot, 1>>) ELSE Empty]
         /\ applied = [m \in Nodes |-> 0] /\ up = [m \in Nodes |-> m = Boot] /\ members = {Boot}
         /\ dead = [m \in Nodes |-> {}]
 \* the join hand-shake: n asks member m; m proposes Join(n, addr) and streams its book (+ n) back
 Join(n, m) == /\ n \notin members /\ m \in members /\ up[m] /\ Len(log) < MaxLog
-              /\ log' = Append(log, [op |-> "join", n |-> n, addr |-> Addr(n)])
+              /\ gen' = [gen EXCEPT ![n] = @ + 1]
+              /\ LET a == <<n, gen[n] + 1>> IN
+                 /\ log' = Append(log, [op |-> "join", n |-> n, addr |-> a])
+                 \* a new process: empty book but for what the member streams back, no clients, nothing applied
+                 /\ book' = [book EXCEPT ![n] = [y \in DOMAIN book[m] \cup {n} |-> IF y = n THEN a ELSE book[m][y]]]
               /\ members' = members \cup {n} /\ up' = [up EXCEPT ![n] = TRUE]
-              /\ book' = [book EXCEPT ![n] = [y \in DOMAIN book[m] \cup {n} |-> IF y = n THEN Addr(n) ELSE book[m][y]]]
-              /\ UNCHANGED <<snapIdx, snapBook, applied, dead>>
+              /\ applied' = [applied EXCEPT ![n] = 0] /\ snapIdx' = [snapIdx EXCEPT ![n] = 0]
+              /\ snapBook' = [snapBook EXCEPT ![n] = Empty] /\ dead' = [dead EXCEPT ![n] = {}]
 Leave(n) == /\ n \in members /\ n # Boot /\ Len(log) < MaxLog
             /\ log' = Append(log, [op |-> "leave", n |-> n, addr |-> NoAddr])
             /\ members' = members \ {n}
-            /\ UNCHANGED <<snapIdx, snapBook, book, applied, up, dead>>
+            /\ up' = [up EXCEPT ![n] = FALSE]        \* the removed node stops
+            /\ UNCHANGED <<snapIdx, snapBook, book, applied, dead, gen>>
 Apply(m) == /\ up[m] /\ applied[m] < Len(log)
             /\ applied' = [applied EXCEPT ![m] = @ + 1]
             /\ book' = [book EXCEPT ![m] = StepB(@, log[applied[m] + 1])]
             /\ LET e == log[applied[m] + 1] IN
-               dead' = [dead EXCEPT ![m] = IF e.op = "leave" /\ e.n # m /\ e.n \in DOMAIN book[m] /\ ~ForgetClientOnRemove
+               dead' = [dead EXCEPT ![m] = IF e.op = "leave" /\ e.n # m /\ e.n \in DOMAIN book[m] /\ ~ForgetClientOnRemove /\ ~ClientPerCall
                                             THEN @ \cup {e.n} ELSE @]
-            /\ UNCHANGED <<log, snapIdx, snapBook, up, members>>
+            /\ UNCHANGED <<log, snapIdx, snapBook, up, members, gen>>
 Compact(m) == /\ up[m] /\ applied[m] > snapIdx[m]
               /\ snapIdx' = [snapIdx EXCEPT ![m] = applied[m]]
               /\ snapBook' = [snapBook EXCEPT ![m] = IF SnapshotHasBook THEN book[m] ELSE Empty]
-              /\ UNCHANGED <<log, book, applied, up, members, dead>>
+              /\ UNCHANGED <<log, book, applied, up, members, dead, gen>>
+\* a member behind src's compacted prefix installs src's snapshot (NodesManager.processSnapshot):
+\* ids that are not in it are removed - directly on the Conn, not through the transport -, the others added
+SnapInstall(b, sb, self) ==
+  LET kept == [y \in {x \in DOMAIN b : x \in DOMAIN sb \/ x = self} |-> b[y]]
+      ids  == DOMAIN kept \cup DOMAIN sb
+  IN  [y \in ids |-> IF y \in DOMAIN sb THEN (IF y \in DOMAIN kept THEN AddNode(kept, y, sb[y])[y] ELSE sb[y]) ELSE kept[y]]
+InstallSnapshot(m, src) ==
+              /\ up[m] /\ up[src] /\ m # src /\ SnapshotHasBook /\ applied[m] < snapIdx[src]
+              /\ book' = [book EXCEPT ![m] = SnapInstall(@, snapBook[src], m)]
+              /\ applied' = [applied EXCEPT ![m] = snapIdx[src]]
+              /\ snapIdx' = [snapIdx EXCEPT ![m] = snapIdx[src]]
+              /\ snapBook' = [snapBook EXCEPT ![m] = snapBook[src]]
+              /\ dead' = [dead EXCEPT ![m] = IF ClientPerCall THEN @
+                                            ELSE @ \cup {x \in DOMAIN book[m] : x # m /\ x \notin DOMAIN snapBook[src]}
+                                                   \cup {x \in DOMAIN book[m] \cap DOMAIN snapBook[src] : x # m /\ AddOverwrites /\ book[m][x] # NoAddr /\ book[m][x] # snapBook[src][x]}]
+              /\ UNCHANGED <<log, up, members, gen>>
 \* restart: own entry, then snapshot, then the entries after it are replayed by Apply
 Restart(m) == /\ up[m]
-              /\ book' = [book EXCEPT ![m] = AddNode(snapBook[m], m, Addr(m))]
+              /\ book' = [book EXCEPT ![m] = IF m \in DOMAIN snapBook[m] /\ snapBook[m][m] # NoAddr THEN snapBook[m] ELSE Put(snapBook[m], m, Addr(m))]
               /\ applied' = [applied EXCEPT ![m] = snapIdx[m]]
               /\ dead' = [dead EXCEPT ![m] = {}]
-              /\ UNCHANGED <<log, snapIdx, snapBook, up, members>>
+              /\ UNCHANGED <<log, snapIdx, snapBook, up, members, gen>>
 Next == \/ \E n, m \in Nodes : Join(n, m)
+        \/ \E n, m \in Nodes : InstallSnapshot(n, m)
         \/ \E n \in Nodes : Leave(n) \/ Apply(n) \/ Compact(n) \/ Restart(n)
 Spec == Init /\ [][Next]_vars
 
